@@ -91,8 +91,10 @@ CLAIMS = {
          "its type; field accesses judged only by 'the constraint was queued and solve ended clean'; method-call forms x.m(a) / "
          "T::m(x, a) and array literals are in the model and the tie and under infer_total / infer_store_invariant, but excluded "
          "from infer_sound by the explicit flag r.gen.outside = false). The tie also runs over the real corpus: 232 top-level "
-         "functions, 110 inside the model and compared, 122 outside (constructors, struct literals, struct/constructor patterns, "
-         "trait static calls, typed-int patterns). Tie: gv infer observes the REAL typecheck_fn through one cfg(goml_verif) observer hook on "
+         "functions, 171 inside the model (168 compared, 0 differences), 61 outside (struct literals, struct patterns, trait static "
+         "calls), and over the accepted twins of the C03 call-form catalogue (654 functions compared; the seeded change in "
+         "infer_static_member_call_expr now breaks this tie). Constructor expressions / patterns and typed-int patterns are modelled "
+         "and tied, still outside infer_sound (ghost flag). Tie: gv infer observes the REAL typecheck_fn through one cfg(goml_verif) observer hook on "
          "generated function bodies and compares queue before solve, fresh-key counts, diagnostic classes, recorded and final type of "
          "every node with gomlmodel infer. Oracle without the model: every accepted generated function's REAL final types satisfy Wt; "
          "every program with one injected error of 18 kinds is rejected by the typer.",
